@@ -35,7 +35,13 @@
    stale fork neither rolls them back nor pulls the cursor back: C06_ff_stale_import_refuted
    (Ledger/ResumeFF.v; reproduced on the real code by harness/cmd/c06's import-only family).
    T11-T12 (Ledger/ResumeFFProofs.v): Start with its fast-forward AS REPAIRED while a restore is in
-   progress, from any rescan cursor, on any chain the node may have at the restart. *)
+   progress, from any rescan cursor, on any chain the node may have at the restart (the restored
+   wallet alone in the database; subsumed by T13-T15 below, which keep them as the one-wallet case).
+   T13-T16 (Ledger/CrashProofs4.v): crashes + restarts at ANY positions of the multi-wallet restore
+   histories of C07 (other ready wallets in the database, shared transactions, one restore or two
+   concurrent ones): the invariants of C07 survive every restart on any chain of the node, the
+   unfinished restores are in the rebuilt queue, and the final database is the live run of all
+   wallets = the database of the run that never stopped; frame for the other wallets. *)
 From Coq Require Import List ZArith NArith Bool Lia.
 Import ListNotations.
 Open Scope Z_scope.
@@ -687,5 +693,456 @@ Proof.
   split; [eexists; reflexivity|].
   split; [apply incl_appl; apply incl_refl|].
   split; [apply xwf_b_sound; vm_compute; reflexivity|].
+  vm_compute. repeat split; reflexivity.
+Qed.
+
+(* ================================================================== T13-T16: crashes INSIDE the multi-wallet restore histories of C07
+   (Ledger/CrashProofs4.v)
+
+   The setting of C07_import_equals_live_multi / C07_two_imports_equal_live (Properties/C07.v): a database that
+   holds any number of ready wallets which followed the chain live ([minv p g U w keys0 c0 st0], w absent:
+   C07_multi_start / C07_reachable_start give it), transactions shared between wallets; one wallet — or two,
+   concurrently — is restored; histories of C07's events [xwf] / [xwf2] (the node connects, disconnects,
+   re-connects blocks; announcements: extensions, reorganisations with the cursor pull-back, roll-backs;
+   rescan batches that find the node wherever it is).
+   NEW: a history is a list of [cev]: [CEv e], an event of those histories, or [CRestart ff]: the process stops
+   — the volatile fields [x_dead], [x_p1] and the handler's state are lost ([xreopen]) — and is started again on
+   the same store with the node wherever it is: [CRestart None] runs Remove.v's Start (catch-up by height, tip
+   check; it IS xstep's XRestart: [crestart_none]), [CRestart (Some ff)] runs Start with its fast-forward of margin
+   ff as repaired ([ResumeFF.start_sync_ff]).  What the node does while the wallet is down are the XAttach /
+   XDetach events before the restart: any number, any depth.  [cwf] / [cwf2]: the environment assumption event by
+   event = [ev_ok] / [ev_ok2] of C07 for [CEv e], and for a restart [restart_ok]: ff >= 0 and [node_ok]: the node is
+   not on a bare genesis (the exclusion of C06_ff_restart_any_chain) — or it may be, under the environment
+   assumption of T6-T8 ([Crash2.genesis_prev_free g U]: the genesis block's previous-hash field, the zero hash, is
+   no other block's hash).  NO premise on where the crashes are: between any
+   two commits (batches of either wallet, announcements, reorganisations), any number of them, also before the
+   first batch (right after the status row was written) and one right after another.
+   [rebuild_queue] (Ledger/Resume.v) = initTaskChan: the queue Start rebuilds from the status rows. *)
+Require Import MW.Ledger.ImportProofs3 MW.Ledger.ImportProofs6 MW.Ledger.CrashProofs4.
+
+(* T13: Start after a crash, on the invariant: ONE wallet being restored beside ready ones (any cursor), the
+   handler having followed ANY chain c, the node on ANY chain n ([node_ok]: not a bare genesis, or any chain at
+   all when the genesis block's previous-hash field is no block's hash) when the process comes
+   back — reorganised at any depth below, at or above the cursor, grown or shrunk —, either form of Start:
+   succeeds, and the handler then follows n with the invariant: w's credits are exactly those of n up to the
+   (pulled-back) cursor, everybody else's exactly those of all of n. *)
+Theorem C06_restart_any_chain_multi : forall p g U, (forall b1 b2, In b1 U -> In b2 U -> b_id b1 = b_id b2 -> b1 = b2) ->
+  forall w keysA ff c n st, ff_ok ff -> ninv g U n -> node_ok g U n -> minv p g U w keysA c st ->
+  exists st', start_of p ff n (xreopen st) = XOk st' /\ minv p g U w keysA n st'.
+Proof. exact restart_minv. Qed.
+Print Assumptions C06_restart_any_chain_multi.
+
+(* ... and with TWO wallets being restored, each with a cursor of its own, on whatever forks the cursors were
+   reached: both are pulled back below the fork by the same Start *)
+Theorem C06_restart_any_chain_two : forall p g U, (forall b1 b2, In b1 U -> In b2 U -> b_id b1 = b_id b2 -> b1 = b2) ->
+  forall w1 w2, w1 <> w2 -> forall keysA ff c n st, ff_ok ff -> ninv g U n -> node_ok g U n ->
+  minv2 p g U w1 w2 keysA c st ->
+  exists st', start_of p ff n (xreopen st) = XOk st' /\ minv2 p g U w1 w2 keysA n st'.
+Proof. exact restart_minv2. Qed.
+Print Assumptions C06_restart_any_chain_two.
+
+(* T14: ONE restore, any history with crashes.  At EVERY point: the invariant ([sinv_m]: also "the process is
+   up": no restart failed, nothing panicked); in step with w handed over the WHOLE database is the live run of
+   all wallets over the node's chain ([equals_live_all], C07); while w is not ready it cannot be selected, and
+   it is in the queue Start rebuilds — the restore is resumed —, a queue that depends on the persistent state
+   only; the task is never dropped. *)
+Theorem C06_crash_during_import_multi : forall p g U, (forall b1 b2, In b1 U -> In b2 U -> b_id b1 = b_id b2 -> b1 = b2) ->
+  forall w keys0 B cap, 0 < B -> forall pass sh shs c0 n0 all0 st0 st1,
+  ninv g U n0 -> minv p g U w keys0 c0 st0 -> Import.status_of st0 w = None -> (forall s, ownW w keys0 s = None) ->
+  (forall s, In s (sh :: shs) -> lookupN keys0 s = None) ->
+  import_start st0 w pass (sh :: shs) = Some st1 ->
+  forall h, cwf p g U B cap w {| xs_node := n0; xs_st := st1; xs_all := all0; xs_crashed := false |} h ->
+  let s := crun p B cap h {| xs_node := n0; xs_st := st1; xs_all := all0; xs_crashed := false |} in
+  sinv_m p g U w (keys0 ++ keys_of w (sh :: shs)) s /\
+  (in_step g s -> Import.status_of (xs_st s) w = Some Import.WReady -> equals_live_all p (xs_st s) (xs_node s)) /\
+  (Import.status_of (xs_st s) w <> Some Import.WReady ->
+     use_wallet (xs_st s) w = UUnready /\ In (w, false) (rebuild_queue (xs_st s)) /\
+     rebuild_queue (xreopen (xs_st s)) = rebuild_queue (xs_st s)) /\
+  x_dead (xs_st s) = [] /\ xs_crashed s = false.
+Proof. exact crash_during_import_multi. Qed.
+Print Assumptions C06_crash_during_import_multi.
+
+(* every restart of such a history: Start returns without error (the wallet opens) and the handler is IN STEP *)
+Theorem C06_crash_restart_in_step : forall p g U, (forall b1 b2, In b1 U -> In b2 U -> b_id b1 = b_id b2 -> b1 = b2) ->
+  forall w keys0 B cap, 0 < B -> forall pass sh shs c0 n0 all0 st0 st1,
+  ninv g U n0 -> minv p g U w keys0 c0 st0 -> Import.status_of st0 w = None -> (forall s, ownW w keys0 s = None) ->
+  import_start st0 w pass (sh :: shs) = Some st1 ->
+  forall h ff, cwf p g U B cap w {| xs_node := n0; xs_st := st1; xs_all := all0; xs_crashed := false |} (h ++ [CRestart ff]) ->
+  let s1 := crun p B cap h {| xs_node := n0; xs_st := st1; xs_all := all0; xs_crashed := false |} in
+  let s := crun p B cap (h ++ [CRestart ff]) {| xs_node := n0; xs_st := st1; xs_all := all0; xs_crashed := false |} in
+  start_of p ff (xs_node s1) (xreopen (xs_st s1)) = XOk (xs_st s) /\ xs_node s = xs_node s1 /\
+  in_step g s /\ minv p g U w (keys0 ++ keys_of w (sh :: shs)) (xs_node s) (xs_st s).
+Proof. exact crash_restart_in_step. Qed.
+Print Assumptions C06_crash_restart_in_step.
+
+(* liveness after any history with crashes: in step (e.g. right after a restart), chain static, m batches: w is ready
+   as soon as cursor + m * B exceeds the height, and the database is the live run of all wallets *)
+Theorem C06_crash_import_live : forall p g U, (forall b1 b2, In b1 U -> In b2 U -> b_id b1 = b_id b2 -> b1 = b2) ->
+  forall w keys0 B cap, 0 < B -> forall pass sh shs c0 n0 all0 st0 st1,
+  ninv g U n0 -> minv p g U w keys0 c0 st0 -> Import.status_of st0 w = None -> (forall s, ownW w keys0 s = None) ->
+  (forall s, In s (sh :: shs) -> lookupN keys0 s = None) ->
+  import_start st0 w pass (sh :: shs) = Some st1 ->
+  forall h m, cwf p g U B cap w {| xs_node := n0; xs_st := st1; xs_all := all0; xs_crashed := false |} h ->
+  let s := crun p B cap h {| xs_node := n0; xs_st := st1; xs_all := all0; xs_crashed := false |} in
+  in_step g s ->
+  (forall k, Import.status_of (xs_st s) w = Some (Import.WImporting k) -> chain_height (xs_node s) < k + Z.of_nat m * B) ->
+  let s' := crun p B cap (h ++ map CEv (repeat (XBatch w) m)) {| xs_node := n0; xs_st := st1; xs_all := all0; xs_crashed := false |} in
+  xs_node s' = xs_node s /\ in_step g s' /\ Import.status_of (xs_st s') w = Some Import.WReady /\
+  equals_live_all p (xs_st s') (xs_node s').
+Proof. exact crash_import_live. Qed.
+Print Assumptions C06_crash_import_live.
+
+(* COROLLARY "exactly the state of a run that never stopped": hc a history WITH crashes, hx one WITHOUT (plain
+   C07 history), from the same start; both end in step with the node on the same chain and w handed over: the
+   same synced chain, the same credits — every wallet's, in the same order, with the same spent marks; the one
+   credit list a permutation of the other —, the same reports for every wallet.  (Both equal the live ledger.) *)
+Theorem C06_crash_run_equals_uninterrupted : forall p g U, (forall b1 b2, In b1 U -> In b2 U -> b_id b1 = b_id b2 -> b1 = b2) ->
+  forall w keys0 B cap, 0 < B -> forall pass sh shs c0 n0 all0 st0 st1,
+  ninv g U n0 -> minv p g U w keys0 c0 st0 -> Import.status_of st0 w = None -> (forall s, ownW w keys0 s = None) ->
+  (forall s, In s (sh :: shs) -> lookupN keys0 s = None) ->
+  import_start st0 w pass (sh :: shs) = Some st1 ->
+  forall hc hx, cwf p g U B cap w {| xs_node := n0; xs_st := st1; xs_all := all0; xs_crashed := false |} hc ->
+  xwf p g U w B cap {| xs_node := n0; xs_st := st1; xs_all := all0; xs_crashed := false |} hx ->
+  let sc := crun p B cap hc {| xs_node := n0; xs_st := st1; xs_all := all0; xs_crashed := false |} in
+  let sx := fold_left (xstep repaired p B cap) hx {| xs_node := n0; xs_st := st1; xs_all := all0; xs_crashed := false |} in
+  xs_node sc = xs_node sx -> in_step g sc -> in_step g sx ->
+  Import.status_of (xs_st sc) w = Some Import.WReady -> Import.status_of (xs_st sx) w = Some Import.WReady ->
+  synced (x_w (xs_st sc)) = synced (x_w (xs_st sx)) /\
+  Permutation.Permutation (credits (x_w (xs_st sc))) (credits (x_w (xs_st sx))) /\
+  forall v, proj v (credits (x_w (xs_st sc))) = proj v (credits (x_w (xs_st sx))) /\
+            xreport (xs_st sc) v = xreport (xs_st sx) v.
+Proof. exact crash_run_equals_uninterrupted. Qed.
+Print Assumptions C06_crash_run_equals_uninterrupted.
+
+(* FRAME across crashes, absolute: at EVERY point of every history with crashes every OTHER wallet's credits —
+   spent marks included — and report are those of the ledger of the keys the database had before the restore,
+   over the chain the handler follows: neither the rescan nor any restart has touched them *)
+Theorem C06_crash_frame_multi : forall p g U, (forall b1 b2, In b1 U -> In b2 U -> b_id b1 = b_id b2 -> b1 = b2) ->
+  forall w keys0 B cap, 0 < B -> forall pass sh shs c0 n0 all0 st0 st1,
+  ninv g U n0 -> minv p g U w keys0 c0 st0 -> Import.status_of st0 w = None -> (forall s, ownW w keys0 s = None) ->
+  import_start st0 w pass (sh :: shs) = Some st1 ->
+  forall h, cwf p g U B cap w {| xs_node := n0; xs_st := st1; xs_all := all0; xs_crashed := false |} h ->
+  let s := crun p B cap h {| xs_node := n0; xs_st := st1; xs_all := all0; xs_crashed := false |} in
+  exists c, wf_chain c /\ synced (x_w (xs_st s)) = Proofs.synced_of c /\
+    forall v, v <> w ->
+      proj v (credits (x_w (xs_st s))) = proj v (credits (Proofs.L p (lookupN keys0) c)) /\
+      xreport (xs_st s) v = spec_report p (lookupN keys0) c v.
+Proof. exact crash_frame_multi. Qed.
+Print Assumptions C06_crash_frame_multi.
+
+(* FRAME, relative: the SAME history — the same crashes and restarts — applied to the database in which w was
+   never restored: same node, same synced chain, every other wallet the same credits, spent marks and report *)
+Theorem C06_crash_frame_vs_no_import : forall p g U, (forall b1 b2, In b1 U -> In b2 U -> b_id b1 = b_id b2 -> b1 = b2) ->
+  forall w keys0 B cap, 0 < B -> forall pass sh shs c0 n0 all0 st0 st1,
+  ninv g U n0 -> minv p g U w keys0 c0 st0 -> Import.status_of st0 w = None -> (forall s, ownW w keys0 s = None) ->
+  import_start st0 w pass (sh :: shs) = Some st1 ->
+  forall all0' h, cwf p g U B cap w {| xs_node := n0; xs_st := st1; xs_all := all0; xs_crashed := false |} h ->
+  let s := crun p B cap h {| xs_node := n0; xs_st := st1; xs_all := all0; xs_crashed := false |} in
+  let s2 := crun p B cap h {| xs_node := n0; xs_st := st0; xs_all := all0'; xs_crashed := false |} in
+  xs_node s = xs_node s2 /\ synced (x_w (xs_st s)) = synced (x_w (xs_st s2)) /\
+  forall v, v <> w ->
+    proj v (credits (x_w (xs_st s))) = proj v (credits (x_w (xs_st s2))) /\
+    xreport (xs_st s) v = xreport (xs_st s2) v.
+Proof. exact crash_frame_vs_no_import. Qed.
+Print Assumptions C06_crash_frame_vs_no_import.
+
+(* T15: TWO concurrent restores.  w1 is restored; ANY history h1 WITH CRASHES ([cwf]); while w1 may still be
+   importing w2 is restored; then ANY history h2 with crashes ([cwf2]: batches of either wallet in any
+   interleaving).  At every point: the two-cursor invariant ([sinv2]); in step and both handed over the whole
+   database is the live run of all wallets; a wallet that is not ready cannot be selected and is in the rebuilt
+   queue (BOTH unfinished restores are resumed); no task is dropped; no restart fails. *)
+Theorem C06_crash_during_two_imports : forall p g U, (forall b1 b2, In b1 U -> In b2 U -> b_id b1 = b_id b2 -> b1 = b2) ->
+  forall w1 w2, w1 <> w2 -> forall keys0 B cap, 0 < B ->
+  forall pass1 sh1 shs1 pass2 sh2 shs2 c0 n0 all0 st0 st1,
+  ninv g U n0 -> minv p g U w1 keys0 c0 st0 -> Import.status_of st0 w1 = None -> (forall s, ownW w1 keys0 s = None) ->
+  (forall s, In s (sh1 :: shs1) -> lookupN keys0 s = None) ->
+  import_start st0 w1 pass1 (sh1 :: shs1) = Some st1 ->
+  forall h1, cwf p g U B cap w1 {| xs_node := n0; xs_st := st1; xs_all := all0; xs_crashed := false |} h1 ->
+  let s1 := crun p B cap h1 {| xs_node := n0; xs_st := st1; xs_all := all0; xs_crashed := false |} in
+  forall st2, import_start (xs_st s1) w2 pass2 (sh2 :: shs2) = Some st2 ->
+  (forall s, In s (sh2 :: shs2) -> lookupN (keys0 ++ keys_of w1 (sh1 :: shs1)) s = None) ->
+  let s1' := {| xs_node := xs_node s1; xs_st := st2; xs_all := xs_all s1; xs_crashed := false |} in
+  forall h2, cwf2 p g U B cap w1 w2 s1' h2 ->
+  let s := crun p B cap h2 s1' in
+  sinv2 p g U w1 w2 ((keys0 ++ keys_of w1 (sh1 :: shs1)) ++ keys_of w2 (sh2 :: shs2)) s /\
+  (in_step g s -> Import.status_of (xs_st s) w1 = Some Import.WReady -> Import.status_of (xs_st s) w2 = Some Import.WReady ->
+     equals_live_all p (xs_st s) (xs_node s)) /\
+  (forall v, v = w1 \/ v = w2 -> Import.status_of (xs_st s) v <> Some Import.WReady ->
+     use_wallet (xs_st s) v = UUnready /\ In (v, false) (rebuild_queue (xs_st s)) /\
+     rebuild_queue (xreopen (xs_st s)) = rebuild_queue (xs_st s)) /\
+  x_dead (xs_st s) = [] /\ xs_crashed s = false.
+Proof. exact crash_during_two_imports. Qed.
+Print Assumptions C06_crash_during_two_imports.
+
+(* every restart: Start returns without error, the handler is in step, BOTH cursors at or below the fork *)
+Theorem C06_crash_restart_in_step_two : forall p g U, (forall b1 b2, In b1 U -> In b2 U -> b_id b1 = b_id b2 -> b1 = b2) ->
+  forall w1 w2, w1 <> w2 -> forall keys0 B cap, 0 < B ->
+  forall pass1 sh1 shs1 pass2 sh2 shs2 c0 n0 all0 st0 st1,
+  ninv g U n0 -> minv p g U w1 keys0 c0 st0 -> Import.status_of st0 w1 = None -> (forall s, ownW w1 keys0 s = None) ->
+  import_start st0 w1 pass1 (sh1 :: shs1) = Some st1 ->
+  forall h1, cwf p g U B cap w1 {| xs_node := n0; xs_st := st1; xs_all := all0; xs_crashed := false |} h1 ->
+  let s1 := crun p B cap h1 {| xs_node := n0; xs_st := st1; xs_all := all0; xs_crashed := false |} in
+  forall st2, import_start (xs_st s1) w2 pass2 (sh2 :: shs2) = Some st2 ->
+  let s1' := {| xs_node := xs_node s1; xs_st := st2; xs_all := xs_all s1; xs_crashed := false |} in
+  forall h2 ff, cwf2 p g U B cap w1 w2 s1' (h2 ++ [CRestart ff]) ->
+  let sa := crun p B cap h2 s1' in
+  let s := crun p B cap (h2 ++ [CRestart ff]) s1' in
+  start_of p ff (xs_node sa) (xreopen (xs_st sa)) = XOk (xs_st s) /\ xs_node s = xs_node sa /\
+  in_step g s /\ minv2 p g U w1 w2 ((keys0 ++ keys_of w1 (sh1 :: shs1)) ++ keys_of w2 (sh2 :: shs2)) (xs_node s) (xs_st s).
+Proof. exact crash_restart_in_step2. Qed.
+Print Assumptions C06_crash_restart_in_step_two.
+
+(* liveness after any history with crashes: in step, chain static, batches of the two wallets in any
+   interleaving: w_i is ready once it has had m_i >= 1 batches with cursor_i + m_i * B >= height *)
+Theorem C06_crash_two_imports_live : forall p g U, (forall b1 b2, In b1 U -> In b2 U -> b_id b1 = b_id b2 -> b1 = b2) ->
+  forall w1 w2, w1 <> w2 -> forall keys0 B cap, 0 < B ->
+  forall pass1 sh1 shs1 pass2 sh2 shs2 c0 n0 all0 st0 st1,
+  ninv g U n0 -> minv p g U w1 keys0 c0 st0 -> Import.status_of st0 w1 = None -> (forall s, ownW w1 keys0 s = None) ->
+  (forall s, In s (sh1 :: shs1) -> lookupN keys0 s = None) ->
+  import_start st0 w1 pass1 (sh1 :: shs1) = Some st1 ->
+  forall h1, cwf p g U B cap w1 {| xs_node := n0; xs_st := st1; xs_all := all0; xs_crashed := false |} h1 ->
+  let s1 := crun p B cap h1 {| xs_node := n0; xs_st := st1; xs_all := all0; xs_crashed := false |} in
+  forall st2, import_start (xs_st s1) w2 pass2 (sh2 :: shs2) = Some st2 ->
+  (forall s, In s (sh2 :: shs2) -> lookupN (keys0 ++ keys_of w1 (sh1 :: shs1)) s = None) ->
+  let s1' := {| xs_node := xs_node s1; xs_st := st2; xs_all := xs_all s1; xs_crashed := false |} in
+  forall h2 vs, cwf2 p g U B cap w1 w2 s1' h2 ->
+  let s := crun p B cap h2 s1' in
+  in_step g s -> (forall v, In v vs -> v = w1 \/ v = w2) ->
+  let s' := crun p B cap (h2 ++ map CEv (map XBatch vs)) s1' in
+  xs_node s' = xs_node s /\ in_step g s' /\
+  (forall v, v = w1 \/ v = w2 ->
+     (forall k, Import.status_of (xs_st s) v = Some (Import.WImporting k) ->
+                (0 < count_occ N.eq_dec vs v)%nat /\
+                chain_height (xs_node s) <= k + Z.of_nat (count_occ N.eq_dec vs v) * B) ->
+     Import.status_of (xs_st s') v = Some Import.WReady) /\
+  (Import.status_of (xs_st s') w1 = Some Import.WReady -> Import.status_of (xs_st s') w2 = Some Import.WReady ->
+     equals_live_all p (xs_st s') (xs_node s')).
+Proof. exact crash_two_imports_live. Qed.
+Print Assumptions C06_crash_two_imports_live.
+
+(* COROLLARY "exactly the state of a run that never stopped", two restores *)
+Theorem C06_crash_run_equals_uninterrupted_two : forall p g U, (forall b1 b2, In b1 U -> In b2 U -> b_id b1 = b_id b2 -> b1 = b2) ->
+  forall w1 w2, w1 <> w2 -> forall keys0 B cap, 0 < B ->
+  forall pass1 sh1 shs1 pass2 sh2 shs2 c0 n0 all0 st0 st1,
+  ninv g U n0 -> minv p g U w1 keys0 c0 st0 -> Import.status_of st0 w1 = None -> (forall s, ownW w1 keys0 s = None) ->
+  (forall s, In s (sh1 :: shs1) -> lookupN keys0 s = None) ->
+  import_start st0 w1 pass1 (sh1 :: shs1) = Some st1 ->
+  forall h1, cwf p g U B cap w1 {| xs_node := n0; xs_st := st1; xs_all := all0; xs_crashed := false |} h1 ->
+  let s1 := crun p B cap h1 {| xs_node := n0; xs_st := st1; xs_all := all0; xs_crashed := false |} in
+  forall st2, import_start (xs_st s1) w2 pass2 (sh2 :: shs2) = Some st2 ->
+  (forall s, In s (sh2 :: shs2) -> lookupN (keys0 ++ keys_of w1 (sh1 :: shs1)) s = None) ->
+  let s1' := {| xs_node := xs_node s1; xs_st := st2; xs_all := xs_all s1; xs_crashed := false |} in
+  forall hc hx, cwf2 p g U B cap w1 w2 s1' hc -> xwf2 p g U w1 w2 B cap s1' hx ->
+  let sc := crun p B cap hc s1' in
+  let sx := fold_left (xstep repaired p B cap) hx s1' in
+  xs_node sc = xs_node sx -> in_step g sc -> in_step g sx ->
+  Import.status_of (xs_st sc) w1 = Some Import.WReady -> Import.status_of (xs_st sc) w2 = Some Import.WReady ->
+  Import.status_of (xs_st sx) w1 = Some Import.WReady -> Import.status_of (xs_st sx) w2 = Some Import.WReady ->
+  synced (x_w (xs_st sc)) = synced (x_w (xs_st sx)) /\
+  Permutation.Permutation (credits (x_w (xs_st sc))) (credits (x_w (xs_st sx))) /\
+  forall v, proj v (credits (x_w (xs_st sc))) = proj v (credits (x_w (xs_st sx))) /\
+            xreport (xs_st sc) v = xreport (xs_st sx) v.
+Proof. exact crash_run_equals_uninterrupted2. Qed.
+Print Assumptions C06_crash_run_equals_uninterrupted_two.
+
+(* FRAME across crashes, two restores: every wallet other than w1 and w2, at every point *)
+Theorem C06_crash_two_imports_frame : forall p g U, (forall b1 b2, In b1 U -> In b2 U -> b_id b1 = b_id b2 -> b1 = b2) ->
+  forall w1 w2, w1 <> w2 -> forall keys0 B cap, 0 < B ->
+  forall pass1 sh1 shs1 pass2 sh2 shs2 c0 n0 all0 st0 st1,
+  ninv g U n0 -> minv p g U w1 keys0 c0 st0 -> Import.status_of st0 w1 = None -> (forall s, ownW w1 keys0 s = None) ->
+  import_start st0 w1 pass1 (sh1 :: shs1) = Some st1 ->
+  forall h1, cwf p g U B cap w1 {| xs_node := n0; xs_st := st1; xs_all := all0; xs_crashed := false |} h1 ->
+  let s1 := crun p B cap h1 {| xs_node := n0; xs_st := st1; xs_all := all0; xs_crashed := false |} in
+  forall st2, import_start (xs_st s1) w2 pass2 (sh2 :: shs2) = Some st2 ->
+  let s1' := {| xs_node := xs_node s1; xs_st := st2; xs_all := xs_all s1; xs_crashed := false |} in
+  forall h2, cwf2 p g U B cap w1 w2 s1' h2 ->
+  let s := crun p B cap h2 s1' in
+  exists c, wf_chain c /\ synced (x_w (xs_st s)) = Proofs.synced_of c /\
+    forall v, v <> w1 -> v <> w2 ->
+      proj v (credits (x_w (xs_st s))) = proj v (credits (Proofs.L p (lookupN keys0) c)) /\
+      xreport (xs_st s) v = spec_report p (lookupN keys0) c v.
+Proof. exact crash_two_imports_frame. Qed.
+Print Assumptions C06_crash_two_imports_frame.
+
+(* ------------------------------------------------------------------ T16: closed instances (non-vacuity)
+
+   The database of C07's shared-transaction example: wallet 1 (script hash 1) is live and ready.  Block 1's
+   coinbase pays script hash 2 (wallet 2's, restored later) 100 and script hash 9 (wallet 3's) 1000; block 2 holds
+   T = transaction 5: spends the coin of script hash 2, pays wallet 1 60 and wallet 2 40 change; block 3.
+   Batch size 1.  Wallet 2 is restored: two batches (cursor 2: its coin of block 1, T's spend of it and the change
+   are stored, T's record shared with wallet 1).  CRASH between two batches.  While the wallet is down the node
+   abandons blocks 3 and 2 and grows to height 4 on another branch, on which T is mined again in another block
+   2' (with a coinbase that pays script hash 9 another 7; block 3' pays it 5).  Restart (Start with the
+   fast-forward, margin 0): the reorganisation is processed, the cursor is pulled back to 1, wallet 2 is in the
+   rebuilt queue; three more batches.  All hypotheses of T14 hold; at the end the handler is in step, wallet 2 is
+   ready, both reports are the chain's, and the store is EQUAL to that of the run that never stopped (the same
+   events with the announcement of the new tip processed by the live handler instead of Start). *)
+Definition mcb (id : N) (outs : list txout) : tx := {| t_id := id; t_cb := true; t_ins := []; t_outs := outs |}.
+Definition mpay (sh : N) (v : Z) : txout := {| o_sh := sh; o_val := v; o_class := CStd |}.
+Definition mb1 := {| b_id := 1; b_prev := 0; b_height := 1; b_txs := [mcb 1 [mpay 2 100; mpay 9 1000]] |}.
+Definition mT : tx := {| t_id := 5; t_cb := false; t_ins := [(1, 0)%N]; t_outs := [mpay 1 60; mpay 2 40] |}.
+Definition mb2 := {| b_id := 2; b_prev := 1; b_height := 2; b_txs := [mcb 2 []; mT] |}.
+Definition mb3 := {| b_id := 3; b_prev := 2; b_height := 3; b_txs := [mcb 3 []] |}.
+Definition m_pre : list xevent :=
+  [XNewWallet 1 11; XNewAddr 1 1; XAttach mb1; XProcess mb1; XAttach mb2; XProcess mb2; XAttach mb3; XProcess mb3].
+Definition m_chain : list block := [g0; mb1; mb2; mb3].
+Definition mb2' := {| b_id := 12; b_prev := 1; b_height := 2; b_txs := [mcb 12 [mpay 9 7]; mT] |}.
+Definition mb3' := {| b_id := 13; b_prev := 12; b_height := 3; b_txs := [mcb 13 [mpay 9 5]] |}.
+Definition mb4' := {| b_id := 14; b_prev := 13; b_height := 4; b_txs := [mcb 14 []] |}.
+Definition m_U : list block := m_chain ++ [mb2'; mb3'; mb4'].
+Definition m_chain' : list block := [g0; mb1; mb2'; mb3'; mb4'].
+(* what the node does while the wallet is down *)
+Definition m_down : list xevent := [XDetach; XDetach; XAttach mb2'; XAttach mb3'; XAttach mb4'].
+Definition m_hist1 : list cev :=
+  [CEv (XBatch 2); CEv (XBatch 2)] ++ map CEv m_down ++ [CRestart (Some 0)] ++ [CEv (XBatch 2); CEv (XBatch 2); CEv (XBatch 2)].
+(* the run that never stopped: the live handler processes the announcement of the new tip *)
+Definition m_hx1 : list xevent := [XBatch 2; XBatch 2] ++ m_down ++ [XProcess mb4'] ++ [XBatch 2; XBatch 2; XBatch 2].
+Definition m_st0 : xstate := xs_st (xrun repaired p0 1000 20000 [g0] m_pre).
+
+Lemma m_start : (forall b1 b2, In b1 m_U -> In b2 m_U -> b_id b1 = b_id b2 -> b1 = b2) /\
+  ninv g0 m_U m_chain /\ minv p0 g0 m_U 2 [(1, 1)%N] m_chain m_st0 /\ Import.status_of m_st0 2 = None /\
+  (forall s, ownW 2 [(1, 1)%N] s = None) /\ (forall s, In s [2%N] -> lookupN [(1, 1)%N] s = None).
+Proof.
+  assert (Hwf : wf_chain m_chain) by (apply wf_chain_b_sound; vm_compute; reflexivity).
+  assert (HU : incl m_chain m_U) by (apply incl_appl; apply incl_refl).
+  split; [apply ids_b_sound; vm_compute; reflexivity|].
+  split; [split; [exact Hwf|split; [eexists; reflexivity|exact HU]]|].
+  assert (Hm : minv p0 g0 m_U 2 [(1, 1)%N] m_chain m_st0 /\ (forall s, ownW 2 [(1, 1)%N] s = None)).
+  { apply minv_live_start.
+    - exact Hwf.
+    - eexists; reflexivity.
+    - exact HU.
+    - vm_compute. reflexivity.
+    - vm_compute. reflexivity.
+    - vm_compute. reflexivity.
+    - apply covered_b_sound. vm_compute. reflexivity.
+    - change [(1, 1)%N] with (x_keys m_st0). apply keys_ready_b_sound. vm_compute. reflexivity.
+    - vm_compute. reflexivity.
+    - apply brs_ok_b_sound. vm_compute. reflexivity.
+    - apply brs_le_b_sound. vm_compute. reflexivity. }
+  destruct Hm as [Hm Hnk].
+  split; [exact Hm|]. split; [vm_compute; reflexivity|]. split; [exact Hnk|].
+  intros s [<-|[]]; vm_compute; reflexivity.
+Qed.
+
+Example C06_crash_during_import_instance :
+  (forall b1 b2, In b1 m_U -> In b2 m_U -> b_id b1 = b_id b2 -> b1 = b2) /\
+  ninv g0 m_U m_chain /\ minv p0 g0 m_U 2 [(1, 1)%N] m_chain m_st0 /\ Import.status_of m_st0 2 = None /\
+  (forall s, ownW 2 [(1, 1)%N] s = None) /\ (forall s, In s [2%N] -> lookupN [(1, 1)%N] s = None) /\
+  exists st1, import_start m_st0 2 22 [2%N] = Some st1 /\
+    let s0 := {| xs_node := m_chain; xs_st := st1; xs_all := []; xs_crashed := false |} in
+    cwf p0 g0 m_U 1 20000 2 s0 m_hist1 /\ xwf p0 g0 m_U 2 1 20000 s0 m_hx1 /\
+    (* at the crash: cursor 2, on the old chain; the node is on the new one *)
+    let s_down := crun p0 1 20000 (firstn 7 m_hist1) s0 in
+    Import.status_of (xs_st s_down) 2 = Some (Import.WImporting 2) /\ xs_node s_down = m_chain' /\
+    synced (x_w (xs_st s_down)) = [(3, 3%N); (2, 2%N); (1, 1%N); (0, 0%N)] /\
+    (* after the restart: in step, cursor pulled back, the restore in the rebuilt queue *)
+    let s_up := crun p0 1 20000 (firstn 8 m_hist1) s0 in
+    in_step g0 s_up /\ Import.status_of (xs_st s_up) 2 = Some (Import.WImporting 1) /\
+    synced (x_w (xs_st s_up)) = [(4, 14%N); (3, 13%N); (2, 12%N); (1, 1%N); (0, 0%N)] /\
+    rebuild_queue (xs_st s_up) = [(2%N, false)] /\ xs_crashed s_up = false /\
+    (* at the end *)
+    let s := crun p0 1 20000 m_hist1 s0 in
+    let sx := fold_left (xstep repaired p0 1 20000) m_hx1 s0 in
+    in_step g0 s /\ xs_node s = m_chain' /\ Import.status_of (xs_st s) 2 = Some Import.WReady /\
+    map (fun c => (c_tx c, c_vout c, c_amount c, c_height c, c_spent c)) (proj 2 (credits (x_w (xs_st s)))) =
+      [(1%N, 0%N, 100, 1, Some (5%N, 0%N, 2)); (5%N, 1%N, 40, 2, None)] /\
+    xreport (xs_st s) 1 = spec_report p0 (key_owner (xs_st s)) m_chain' 1 /\ r_total (xreport (xs_st s) 1) = 60 /\
+    xreport (xs_st s) 2 = spec_report p0 (key_owner (xs_st s)) m_chain' 2 /\ r_total (xreport (xs_st s) 2) = 40 /\
+    x_brecs (xs_st s) = [{| br_h := 1; br_bid := 1; br_txs := [1%N] |}; {| br_h := 2; br_bid := 12; br_txs := [5%N] |}] /\
+    (* the run that never stopped *)
+    in_step g0 sx /\ xs_node sx = m_chain' /\ Import.status_of (xs_st sx) 2 = Some Import.WReady /\ xs_st s = xs_st sx.
+Proof.
+  destruct m_start as [H1 [H2 [H3 [H4 [H5 H6]]]]].
+  split; [exact H1|]. split; [exact H2|]. split; [exact H3|]. split; [exact H4|]. split; [exact H5|]. split; [exact H6|].
+  eexists. split; [vm_compute; reflexivity|]. cbv zeta.
+  split; [apply (cwf_b_sound false); [discriminate|vm_compute; reflexivity]|].
+  split; [apply xwf_b_sound; vm_compute; reflexivity|].
+  vm_compute. repeat split; reflexivity.
+Qed.
+
+(* Two concurrent restores on the same database.  Wallet 2 is restored: one batch (cursor 1), then a crash and a
+   restart with the node where it was (Remove.v's Start: nothing to do).  Wallet 3 (script hash 9) is restored while
+   2 is importing.  Batches of 3, 2, 3 (cursors 2 and 2).  CRASH; the same reorganisation while the wallet is
+   down; restart: BOTH cursors are pulled back to 1, both restores are in the rebuilt queue; batches of 2, 3, 3, 2,
+   2, 3.  All hypotheses of T15 hold; at the end all three wallets are ready with the balances of the node's
+   chain (wallet 3: 1000 + 7 + 5), and the store is EQUAL to that of the run that never stopped. *)
+Definition m_h1 : list cev := [CEv (XBatch 2); CRestart None].
+Definition m_hist2 : list cev :=
+  [CEv (XBatch 3); CEv (XBatch 2); CEv (XBatch 3)] ++ map CEv m_down ++ [CRestart (Some 0)] ++
+  [CEv (XBatch 2); CEv (XBatch 3); CEv (XBatch 3); CEv (XBatch 2); CEv (XBatch 2); CEv (XBatch 3)].
+Definition m_hx2 : list xevent :=
+  [XBatch 3; XBatch 2; XBatch 3] ++ m_down ++ [XProcess mb4'] ++ [XBatch 2; XBatch 3; XBatch 3; XBatch 2; XBatch 2; XBatch 3].
+
+Example C06_crash_during_two_imports_instance :
+  (forall b1 b2, In b1 m_U -> In b2 m_U -> b_id b1 = b_id b2 -> b1 = b2) /\
+  ninv g0 m_U m_chain /\ minv p0 g0 m_U 2 [(1, 1)%N] m_chain m_st0 /\ Import.status_of m_st0 2 = None /\
+  (forall s, ownW 2 [(1, 1)%N] s = None) /\ (forall s, In s [2%N] -> lookupN [(1, 1)%N] s = None) /\
+  exists st1, import_start m_st0 2 22 [2%N] = Some st1 /\
+    let s0 := {| xs_node := m_chain; xs_st := st1; xs_all := []; xs_crashed := false |} in
+    cwf p0 g0 m_U 1 20000 2 s0 m_h1 /\
+    let s1 := crun p0 1 20000 m_h1 s0 in
+    Import.status_of (xs_st s1) 2 = Some (Import.WImporting 1) /\
+    exists st2, import_start (xs_st s1) 3 33 [9%N] = Some st2 /\
+      (forall s, In s [9%N] -> lookupN ([(1, 1)%N] ++ keys_of 2 [2%N]) s = None) /\
+      let s1' := {| xs_node := xs_node s1; xs_st := st2; xs_all := xs_all s1; xs_crashed := false |} in
+      cwf2 p0 g0 m_U 1 20000 2 3 s1' m_hist2 /\ xwf2 p0 g0 m_U 2 3 1 20000 s1' m_hx2 /\
+      let s_down := crun p0 1 20000 (firstn 8 m_hist2) s1' in
+      Import.status_of (xs_st s_down) 2 = Some (Import.WImporting 2) /\
+      Import.status_of (xs_st s_down) 3 = Some (Import.WImporting 2) /\ xs_node s_down = m_chain' /\
+      let s_up := crun p0 1 20000 (firstn 9 m_hist2) s1' in
+      in_step g0 s_up /\ Import.status_of (xs_st s_up) 2 = Some (Import.WImporting 1) /\
+      Import.status_of (xs_st s_up) 3 = Some (Import.WImporting 1) /\
+      rebuild_queue (xs_st s_up) = [(2%N, false); (3%N, false)] /\ xs_crashed s_up = false /\
+      let s := crun p0 1 20000 m_hist2 s1' in
+      let sx := fold_left (xstep repaired p0 1 20000) m_hx2 s1' in
+      in_step g0 s /\ xs_node s = m_chain' /\
+      Import.status_of (xs_st s) 2 = Some Import.WReady /\ Import.status_of (xs_st s) 3 = Some Import.WReady /\
+      (forall v, In v [1%N; 2%N; 3%N] -> xreport (xs_st s) v = spec_report p0 (key_owner (xs_st s)) m_chain' v) /\
+      r_total (xreport (xs_st s) 1) = 60 /\ r_total (xreport (xs_st s) 2) = 40 /\ r_total (xreport (xs_st s) 3) = 1012 /\
+      in_step g0 sx /\ Import.status_of (xs_st sx) 2 = Some Import.WReady /\ Import.status_of (xs_st sx) 3 = Some Import.WReady /\
+      xs_st s = xs_st sx.
+Proof.
+  destruct m_start as [H1 [H2 [H3 [H4 [H5 H6]]]]].
+  split; [exact H1|]. split; [exact H2|]. split; [exact H3|]. split; [exact H4|]. split; [exact H5|]. split; [exact H6|].
+  eexists. split; [vm_compute; reflexivity|]. cbv zeta.
+  split; [apply (cwf_b_sound false); [discriminate|vm_compute; reflexivity]|].
+  split; [vm_compute; reflexivity|].
+  eexists. split; [vm_compute; reflexivity|].
+  split; [intros s [<-|[]]; vm_compute; reflexivity|].
+  split; [apply (cwf2_b_sound false); [discriminate|vm_compute; reflexivity]|].
+  split; [apply xwf2_b_sound; vm_compute; reflexivity|].
+  vm_compute. repeat split; try reflexivity.
+  intros v [<-|[<-|[<-|[]]]]; reflexivity.
+Qed.
+
+(* The node reorganised back to its BARE GENESIS while the wallet is down (admitted by [node_ok] because no block of
+   the universe has the genesis block's previous-hash field as its hash): wallet 2 is restored, two batches
+   (cursor 2), crash; the node disconnects every block; restart: Start rolls the store back to the genesis, the
+   cursor is pulled back to 0, wallet 1 — live and ready — reports nothing; the node grows again on the other
+   branch, Start's successor (the live handler) processes the tip, four batches: the reports are the chain's. *)
+Definition m_hist3 : list cev :=
+  [CEv (XBatch 2); CEv (XBatch 2); CEv XDetach; CEv XDetach; CEv XDetach; CRestart (Some 0);
+   CEv (XAttach mb1); CEv (XAttach mb2'); CEv (XAttach mb3'); CEv (XAttach mb4'); CEv (XProcess mb4');
+   CEv (XBatch 2); CEv (XBatch 2); CEv (XBatch 2); CEv (XBatch 2)].
+
+Example C06_crash_bare_genesis_instance :
+  Crash2.genesis_prev_free g0 m_U /\
+  exists st1, import_start m_st0 2 22 [2%N] = Some st1 /\
+    let s0 := {| xs_node := m_chain; xs_st := st1; xs_all := []; xs_crashed := false |} in
+    cwf p0 g0 m_U 1 20000 2 s0 m_hist3 /\
+    let s_up := crun p0 1 20000 (firstn 6 m_hist3) s0 in
+    xs_node s_up = [g0] /\ in_step g0 s_up /\ xs_crashed s_up = false /\
+    synced (x_w (xs_st s_up)) = [(0, 0%N)] /\ credits (x_w (xs_st s_up)) = [] /\
+    Import.status_of (xs_st s_up) 2 = Some (Import.WImporting 0) /\ Import.status_of (xs_st s_up) 1 = Some Import.WReady /\
+    let s := crun p0 1 20000 m_hist3 s0 in
+    in_step g0 s /\ xs_node s = m_chain' /\ Import.status_of (xs_st s) 2 = Some Import.WReady /\
+    xreport (xs_st s) 1 = spec_report p0 (key_owner (xs_st s)) m_chain' 1 /\ r_total (xreport (xs_st s) 1) = 60 /\
+    xreport (xs_st s) 2 = spec_report p0 (key_owner (xs_st s)) m_chain' 2 /\ r_total (xreport (xs_st s) 2) = 40.
+Proof.
+  assert (Hg : Crash2.genesis_prev_free g0 m_U) by (apply gpf_b_sound; vm_compute; reflexivity).
+  split; [exact Hg|].
+  eexists. split; [vm_compute; reflexivity|]. cbv zeta.
+  split; [apply (cwf_b_sound true); [intros _; exact Hg|vm_compute; reflexivity]|].
   vm_compute. repeat split; reflexivity.
 Qed.
